@@ -484,6 +484,9 @@ struct Ctx {
     declared: Vec<(String, usize)>,
     aux_declared: Vec<(String, usize)>,
     aux_counter: u64,
+    /// formulas asserted on the current path (chosen alternatives), for solver-free re-decisions
+    known: std::collections::HashSet<Rc<str>>,
+    cache_hits: u64,
     assumed_depth: Vec<usize>,
     decisions_this_path: u64,
     max_decisions: u64,
@@ -510,6 +513,8 @@ impl Ctx {
             declared: vec![],
             aux_declared: vec![],
             aux_counter: 0,
+            known: std::collections::HashSet::new(),
+            cache_hits: 0,
             assumed_depth: vec![],
             decisions_this_path: 0,
             max_decisions: 1_000_000,
@@ -632,6 +637,15 @@ pub fn decide_among(alts: &[SymBool]) -> usize {
             panic!("vrt: symbolic decision in replay mode (a value was not concretised)");
         }
         assert!(c.in_explore, "vrt::decide outside explore()");
+        // an alternative that was already chosen (hence asserted) earlier on this path holds
+        if let Some(i) = texts.iter().position(|t| c.known.contains(t)) {
+            c.cache_hits += 1;
+            if c.cache_hits > 2_000_000_000 {
+                drop(c);
+                abort_path("step watchdog: too many repeated decisions on one path");
+            }
+            return i;
+        }
         c.decisions_this_path += 1;
         if c.decisions_this_path > c.max_decisions {
             drop(c);
@@ -644,6 +658,8 @@ pub fn decide_among(alts: &[SymBool]) -> usize {
             debug_assert_eq!(d.alts.len(), texts.len(), "vrt: nondeterministic harness (alternative count differs on replay)");
             debug_assert!(d.alts.iter().zip(&texts).all(|(a, b)| a == b), "vrt: nondeterministic harness (alternatives differ on replay)");
             let ch = d.choice;
+            let t = d.alts[ch].clone();
+            c.known.insert(t);
             c.pos += 1;
             return ch;
         }
@@ -673,6 +689,8 @@ pub fn decide_among(alts: &[SymBool]) -> usize {
         let s = c.solver.as_mut().unwrap();
         s.send("(push 1)");
         s.send(&format!("(assert {})", texts[choice]));
+        let t = texts[choice].clone();
+        c.known.insert(t);
         c.trail.push(Decision { alts: texts, choice, remaining });
         c.pos += 1;
         choice
@@ -939,6 +957,8 @@ pub fn explore<F: Fn()>(name: &str, opts: &Options, f: F) -> Report {
             c.terms.clear();
             c.intern.clear();
             c.pos = 0;
+            c.cache_hits = 0;
+            c.known.clear();
             c.aux_counter = 0;
             c.decisions_this_path = 0;
             c.checks_this_path = 0;
